@@ -201,3 +201,8 @@ def run(rep, programs):
     c05.r_recover_complete(rep, prog)
     # a slot that claims a tree it does not hold ends in `Unreserve failed` at the next drain / re-reservation
     c03.r_set_start_same_tree(rep, prog)
+
+
+EXPLANATION = EXPLANATION + (
+    " Further premises: R-RECOVER-DOMAIN / R-RECOVER-COMPLETE (recover's bitfield index stays in range), R-SET-START-SAME-TREE (no slot claims a tree it does not hold: `Unreserve failed`)."
+)
